@@ -30,6 +30,7 @@ pub fn like_cnt<A: EncodeLike<B>, B: Encode + Decode + Spec, const N: usize>(a: 
 	b.encode_to(&mut bb);
 	assert!(same_bytes(&ba, &bb), "a type declared EncodeLike<B> does not produce B's bytes");
 	assert!(ba.n >= 1 && ba.d[0] == (c as u8) << 2);
+	assert!(a.using_encoded(|s| same_slice(s, bb.bytes())), "using_encoded of a type declared EncodeLike<B> does not produce B's bytes");
 	let end = match fixed_len { Some(l) => { assert!(ba.n == 1 + l); 1 + l }, None => ba.n };
 	let mut inp = Pre::count(c, &ba.d[1..end]);
 	match B::decode(&mut inp) {
@@ -79,6 +80,79 @@ pub fn c16q_string_str() {
 	fn need<A: EncodeLike<B>, B: Encode>() {}
 	need::<String, &str>();
 	core::mem::forget(s);
+}
+
+/// strings of 63 / 64 / 65 bytes (the count prefix changes width at 64) through EVERY entry point of &str, String, Cow, Box<str>-like
+/// holders: all must give String's bytes
+#[kani::proof]
+#[kani::unwind(70)]
+pub fn c16q_str_count_boundary_every_entry_point() {
+	let mut raw = [0u8; 65];
+	let mut i = 0;
+	while i < 65 { raw[i] = b'a' + (i % 26) as u8; i += 1; }
+	let x: u8 = kani::any();
+	kani::assume(x < 0x80);
+	raw[7] = x;
+	macro_rules! at { ($n:literal, $plen:literal) => {{
+		let st = unsafe { core::str::from_utf8_unchecked(&raw[..$n]) };
+		let owned = String::from(st);
+		let mut want = Buf::<70>::new();
+		owned.encode_to(&mut want);
+		assert!(want.n == $plen + $n, "String: wrong length");
+		if $plen == 1 { assert!(want.d[0] == ($n as u8) << 2); } else { assert!(want.d[0] == ((($n as u16) << 2) as u8) | 1 && want.d[1] == ((($n as u16) << 2) >> 8) as u8); }
+		let mut b = Buf::<70>::new(); st.encode_to(&mut b);
+		assert!(same_bytes(&b, &want), "&str encode_to differs from String");
+		assert!(st.using_encoded(|s| same_slice(s, want.bytes())), "&str using_encoded differs from String");
+		assert!(owned.using_encoded(|s| same_slice(s, want.bytes())), "String using_encoded differs from String::encode_to");
+		let cow: Cow<str> = Cow::Borrowed(st);
+		assert!(cow.using_encoded(|s| same_slice(s, want.bytes())), "Cow<str> using_encoded differs from String");
+		let rc = Rc::new(owned.clone());
+		assert!(rc.using_encoded(|s| same_slice(s, want.bytes())), "Rc<String> using_encoded differs from String");
+		assert!(st.encoded_size() == $plen + $n && owned.encoded_size() == $plen + $n);
+		core::mem::forget((owned, rc));
+	}}; }
+	at!(63, 1); at!(64, 2); at!(65, 2);
+}
+/// containers whose ELEMENTS have an empty encoding: slices, vectors, deques and lists of them are mutually encode-alike and the
+/// bytes (just the count) decode as each of them
+#[kani::proof]
+#[kani::unwind(8)]
+pub fn c16q_empty_encoding_element_pairs() {
+	let units = [(), (), ()];
+	let sl: &[()] = &units[..];
+	let v: Vec<()> = alloc::vec![(), (), ()];
+	let mut l: LinkedList<()> = LinkedList::new(); l.push_back(()); l.push_back(()); l.push_back(());
+	let mut d: VecDeque<()> = VecDeque::new(); d.push_back(()); d.push_back(()); d.push_back(());
+	like_cnt::<&[()], Vec<()>, 4>(&sl, &v, 3, Some(0));
+	let tups = [((),), ((),), ((),)];
+	let tsl: &[((),)] = &tups[..];
+	like_cnt::<&[((),)], LinkedList<()>, 4>(&tsl, &l, 3, Some(0));
+	like_cnt::<LinkedList<()>, LinkedList<()>, 4>(&l, &l, 3, Some(0));
+	like_cnt::<&[()], VecDeque<()>, 4>(&sl, &d, 3, Some(0));
+	like_cnt::<Vec<()>, VecDeque<()>, 4>(&v, &d, 3, Some(0));
+	let refs: LinkedList<&()> = units.iter().collect();
+	like_cnt::<LinkedList<&()>, LinkedList<()>, 4>(&refs, &l, 3, Some(0));
+	core::mem::forget((v, l, d, refs));
+}
+
+/// arrays of primitives have entry points of their own (using_encoded hands out the array's memory): pointer forms of an array
+/// must produce the array's bytes through every entry point
+#[kani::proof]
+#[kani::unwind(14)]
+pub fn c16q_arrays_of_primitives_pointer_forms() {
+	let a: [u32; 2] = kani::any();
+	like::<[u32; 2], [u32; 2], 12>(&a, &a);
+	like::<&[u32; 2], [u32; 2], 12>(&&a, &a);
+	like::<Box<[u32; 2]>, [u32; 2], 12>(&Box::new(a), &a);
+	like::<Rc<[u32; 2]>, [u32; 2], 12>(&Rc::new(a), &a);
+	let h: [u16; 3] = kani::any();
+	like::<Arc<[u16; 3]>, [u16; 3], 12>(&Arc::new(h), &h);
+	let r: [&u16; 3] = [&h[0], &h[1], &h[2]];
+	like::<[&u16; 3], [u16; 3], 12>(&r, &h);
+	let f: [f32; 1] = kani::any();
+	like::<&[f32; 1], [f32; 1], 12>(&&f, &f);
+	let n: [[i16; 2]; 2] = kani::any();
+	like::<&[[i16; 2]; 2], [[i16; 2]; 2], 12>(&&n, &n);
 }
 
 #[kani::proof]
